@@ -174,3 +174,5 @@ func TestVerifC07Ocsp(t *testing.T) {
 	}
 	vC07Drive(t, decs, nil, fams, 500, 8000)
 }
+
+func FuzzVerifC07Ocsp(f *testing.F) { vC07FuzzTarget(f, TestVerifC07Ocsp) }
